@@ -42,7 +42,13 @@ class _Docker:
         data = m.get("/data")
         if data is not None and data[0] not in (None, "None"):
             dp = Path(str(data[0]))
-            rec["seen"]["data_files"] = sorted(p.name for p in dp.iterdir()) if dp.is_dir() else None
+            if not dp.is_absolute():
+                # docker reads a volume source that is not an absolute path as the NAME of a volume: the container gets an (empty)
+                # named volume, not the host directory
+                rec["seen"]["data_files"] = []
+                rec["seen"]["data_source_is_a_volume_name"] = str(dp)
+            else:
+                rec["seen"]["data_files"] = sorted(p.name for p in dp.iterdir()) if dp.is_dir() else None
         script = dict(SCRIPT)
 
         def gen():
